@@ -22,7 +22,10 @@ RULE = (
     "sort on/off), materialised in a per-case temporary directory. Oracle: spec and tree are walked together (name "
     "sets, is_dir, size == os.stat().st_size, mdate == os.stat().st_mtime, with sort: files by code-point name then "
     "directories by name); then save -> FileSystemTree.load must preserve class, names, flags, sizes, mdates and "
-    "order. Non-trivial: some folder has >= 2 files and >= 2 sub-folders; distinct = distinct spec."
+    "order. In half of the cases files are then rewritten (other size, other mtime): the tree returned by the first "
+    "scan must still read as it did - also when it is looked at for the first time only after the change -, and a "
+    "second scan of the same path must mirror the new state. "
+    "Non-trivial: some folder has >= 2 files and >= 2 sub-folders; distinct = distinct spec."
 )
 ASSUMPTIONS = [
     "case-sensitive POSIX file system with sub-second mtimes under the temporary directory",
@@ -47,8 +50,20 @@ def materialise(spec, path):
         materialise(d, p)
 
 
-def compare(rec, spec, path, children, sort, which):
-    """children: list of tree nodes for folder `path` described by `spec`."""
+def stat_map(root):
+    """path -> (size, mtime) of every file below root (os.walk + os.stat: the trusted reference)."""
+    out = {}
+    for dirpath, _dirs, files in os.walk(root):
+        for f in files:
+            full = os.path.join(dirpath, f)
+            st_ = os.stat(full)
+            out[full] = (st_.st_size, st_.st_mtime)
+    return out
+
+
+def compare(rec, spec, path, children, sort, which, stats=None):
+    """children: list of tree nodes for folder `path` described by `spec`.
+    stats: path -> (size, mtime) recorded earlier (default: os.stat now)."""
     exp_files = {f[0]: f for f in spec["files"]}
     exp_dirs = {d["name"]: d for d in spec["dirs"]}
     got_names = [c.data.name for c in children]
@@ -68,16 +83,25 @@ def compare(rec, spec, path, children, sort, which):
         if e.name in exp_dirs:
             if e.is_dir is not True:
                 rec.fail(f"{which}:is_dir", [e.name, e.is_dir])
-            compare(rec, exp_dirs[e.name], full, list(c.children), sort, which)
+            compare(rec, exp_dirs[e.name], full, list(c.children), sort, which, stats)
         else:
             if e.is_dir:
                 rec.fail(f"{which}:is_dir", [e.name, e.is_dir])
                 continue
-            stt = os.stat(full)
-            if e.size != stt.st_size or e.size != exp_files[e.name][1]:
-                rec.fail(f"{which}:size", [e.name, e.size, stt.st_size])
-            if e.mdate != stt.st_mtime:
-                rec.fail(f"{which}:mdate", [e.name, repr(e.mdate), repr(stt.st_mtime)])
+            try:
+                got_size, got_mdate = e.size, e.mdate
+            except Exception as ex:  # noqa: BLE001
+                rec.fail(f"{which}:entry-unreadable", [e.name, repr(ex)])
+                continue
+            if stats is None:
+                stt = os.stat(full)
+                st_size, st_mtime = stt.st_size, stt.st_mtime
+            else:
+                st_size, st_mtime = stats[full]
+            if got_size != st_size or got_size != exp_files[e.name][1]:
+                rec.fail(f"{which}:size", [e.name, got_size, st_size])
+            if got_mdate != st_mtime:
+                rec.fail(f"{which}:mdate", [e.name, repr(got_mdate), repr(st_mtime)])
             if c.children:
                 rec.fail(f"{which}:file-with-children", e.name)
 
@@ -111,12 +135,27 @@ def run(case, rec):
         if type(tree) is not FileSystemTree:
             rec.fail("scan:class", repr(type(tree)))
             return
-        compare(rec, spec, root, list(tree.children), sort, "scan")
-        if rec.failed:
-            return
+        late = bool(case.get("rescan")) and bool(case.get("late_read"))
+        if late:
+            # the caller looks at the returned tree only after the directory has changed (files rewritten, one
+            # deleted): the tree must show what was there when it was scanned
+            import copy
+
+            spec_then, stats_then = copy.deepcopy(spec), stat_map(root)
+        else:
+            compare(rec, spec, root, list(tree.children), sort, "scan")
+            if rec.failed:
+                return
         # ---- multi-step: change files on disk and scan the same path again ------------------
         if case.get("rescan"):
             changed = 0
+            scanned = None
+            if not late:
+                try:
+                    scanned = view(tree)  # what the scan returned, read before the disk changes
+                except Exception as e:  # noqa: BLE001
+                    rec.fail("scan:entry-unreadable", repr(e))
+                    return
 
             def touch(sp, path):
                 nonlocal changed
@@ -133,6 +172,22 @@ def run(case, rec):
                     touch(d, os.path.join(path, d["name"]))
 
             touch(spec, root)
+            # the tree returned by the first scan is a record of what was scanned: it does not follow the disk
+            rec.evals += 1
+            if late:
+                rec.cls("first-look-at-the-tree-after-the-disk-changed")
+                compare(rec, spec_then, root, list(tree.children), sort, "scan(read-late)", stats_then)
+                if rec.failed:
+                    return
+            else:
+                try:
+                    later = view(tree)
+                except Exception as e:  # noqa: BLE001
+                    rec.fail("scan:entry-unreadable-after-the-disk-changed", repr(e))
+                    return
+                if later != scanned:
+                    rec.fail("scan:tree-changed-when-the-disk-changed", {"scanned": scanned, "later": later})
+                    return
             tree = load_tree_from_fs(root, sort=sort)
             rec.evals += 1
             rec.cls("rescan-after-modification")
@@ -181,6 +236,8 @@ def hyp_cases(draw, tier):
         case["compression"] = True
     if draw(st.sampled_from([0, 1])):
         case["rescan"] = True
+        if draw(st.sampled_from([0, 1])):
+            case["late_read"] = True
     return case
 
 
